@@ -282,7 +282,7 @@ pub fn check_system(ctx: &Ctx, sys: &RosSys, item: u64, acc: &mut Acc, found: &m
     let spec = sys.exec_spec();
     let n = spec.cbs.len();
     let m = Model::new(&spec, &b, 5);
-    let st = engine::explore(&m, 4_000_000);
+    let st = engine::explore(&m, 2_000_000);
     acc.systems += 1;
     acc.states += st.states as u64;
     acc.transitions += st.transitions as u64;
